@@ -1,3 +1,5 @@
+//go:build verif
+
 package proxy
 
 // Verification harness for C01-C04 (Routing): drives the REAL streamRouting / proxyStreamSender /
@@ -35,6 +37,7 @@ import (
 
 	"github.com/temporalio/s2s-proxy/config"
 	"github.com/temporalio/s2s-proxy/encryption"
+	"github.com/temporalio/s2s-proxy/internal/vhook"
 	"github.com/temporalio/s2s-proxy/logging"
 )
 
@@ -84,6 +87,31 @@ type vrtHarness struct {
 	nextID  map[int]int64
 	srcAck  map[int]int64
 	cmdWait time.Duration
+	holdTgt map[int]chan struct{} // target shard -> release channel while its sender is to be held after close(sendMsgChan)
+	heldTgt map[int]bool
+	idPool  map[[2]int][3]string // (ownerA, ownerB) -> nsA, nsB, wf with hash(nsA,wf)=ownerA and hash(nsB,wf)=ownerB
+	wfPool  map[int][]string
+}
+
+// hook handler: holds a proxyStreamSender right after close(sendMsgChan) when the schedule asks for it
+func (h *vrtHarness) hook(point string, kv ...any) {
+	if point != "sender.run.afterClose" || len(kv) < 2 {
+		return
+	}
+	sh, ok := kv[1].(history.ClusterShardID)
+	if !ok || sh.ClusterID != vrtClusterB {
+		return
+	}
+	h.mu.Lock()
+	rel := h.holdTgt[int(sh.ShardID)]
+	if rel == nil {
+		h.mu.Unlock()
+		return
+	}
+	h.heldTgt[int(sh.ShardID)] = true
+	h.emit(map[string]interface{}{"ev": "TgtHeld", "t": int(sh.ShardID)})
+	h.mu.Unlock()
+	<-rel
 }
 
 func (h *vrtHarness) emit(ev map[string]interface{}) { // caller holds h.mu
@@ -374,12 +402,26 @@ func (h *vrtHarness) reset(sc *vrtSchedule) {
 	h.srcs, h.tgts = map[int]*vrtSrc{}, map[int]*vrtTgt{}
 	h.tokens, h.orig = map[string]vrtTok{}, map[string]*replicationv1.ReplicationTask{}
 	h.nextID, h.srcAck = map[int]int64{}, map[int]int64{}
+	h.holdTgt, h.heldTgt = map[int]chan struct{}{}, map[int]bool{}
 	h.wfByTgt = map[int]string{}
-	for i := 0; len(h.wfByTgt) < sc.NT && i < 100000; i++ {
+	h.wfPool = map[int][]string{}
+	h.idPool = map[[2]int][3]string{}
+	for i := 0; i < 4000; i++ {
 		wf := fmt.Sprintf("wf-%d", i)
 		t := int(servercommon.WorkflowIDToHistoryShard("verif-ns-id", wf, int32(sc.NT)))
 		if _, ok := h.wfByTgt[t]; !ok {
 			h.wfByTgt[t] = wf
+		}
+		if len(h.wfPool[t]) < 4 {
+			h.wfPool[t] = append(h.wfPool[t], wf)
+		}
+		// one workflow id that lives in two namespaces with different owners
+		ta := int(servercommon.WorkflowIDToHistoryShard("verif-ns-a", wf, int32(sc.NT)))
+		tb := int(servercommon.WorkflowIDToHistoryShard("verif-ns-b", wf, int32(sc.NT)))
+		if ta != tb {
+			if _, ok := h.idPool[[2]int{ta, tb}]; !ok {
+				h.idPool[[2]int{ta, tb}] = [3]string{"verif-ns-a", "verif-ns-b", wf}
+			}
 		}
 	}
 	h.emit(map[string]interface{}{"ev": "Config", "id": sc.ID, "ns": sc.NS, "nt": sc.NT, "route": sc.Route, "late": sc.Late})
@@ -480,8 +522,21 @@ func (h *vrtHarness) openSrc(s int) bool {
 	return ok
 }
 
-func (h *vrtHarness) mkTask(s int, id int64) *replicationv1.ReplicationTask {
-	owner := h.sched.Route[fmt.Sprint(s)][id-1]
+func (h *vrtHarness) ownerOf(s int, id int64) int {
+	r := h.sched.Route[fmt.Sprint(s)]
+	if int(id) <= len(r) {
+		return r[id-1]
+	}
+	return r[len(r)-1]
+}
+
+func (h *vrtHarness) mkTask(s int, id int64, ns, wf string) *replicationv1.ReplicationTask {
+	owner := h.ownerOf(s, id)
+	if wf == "" {
+		ns = "verif-ns-id"
+		pool := h.wfPool[owner]
+		wf = pool[h.rng.Intn(len(pool))]
+	}
 	tok := fmt.Sprintf("tok-%d-%d-%d-%d", h.run, s, id, h.rng.Intn(1<<30))
 	data := make([]byte, 8+h.rng.Intn(24))
 	h.rng.Read(data)
@@ -490,7 +545,7 @@ func (h *vrtHarness) mkTask(s int, id int64) *replicationv1.ReplicationTask {
 		SourceTaskId: id,
 		Priority:     enumsspb.TASK_PRIORITY_UNSPECIFIED,
 		RawTaskInfo: &persistencespb.ReplicationTaskInfo{
-			NamespaceId: "verif-ns-id", WorkflowId: h.wfByTgt[owner], RunId: tok, TaskId: id, Version: int64(100 + h.rng.Intn(100)),
+			NamespaceId: ns, WorkflowId: wf, RunId: tok, TaskId: id, Version: int64(100 + h.rng.Intn(100)),
 			FirstEventId: int64(h.rng.Intn(1000)), NextEventId: int64(1000 + h.rng.Intn(1000)),
 		},
 		Data: &commonpb.DataBlob{Data: data},
@@ -513,8 +568,16 @@ func (h *vrtHarness) exec(c vrtCmd) bool {
 		first := h.nextID[c.S]
 		var tasks []*replicationv1.ReplicationTask
 		if c.C == "tasks" {
+			// adjacent tasks with different owners share one workflow id in two namespaces when possible
+			nss, wfs := make([]string, c.K), make([]string, c.K)
+			for i := 1; i < c.K; i++ {
+				oa, ob := h.ownerOf(c.S, first+int64(i-1)), h.ownerOf(c.S, first+int64(i))
+				if p, ok := h.idPool[[2]int{oa, ob}]; ok && wfs[i-1] == "" {
+					nss[i-1], wfs[i-1], nss[i], wfs[i] = p[0], p[2], p[1], p[2]
+				}
+			}
 			for i := 0; i < c.K; i++ {
-				tasks = append(tasks, h.mkTask(c.S, first+int64(i)))
+				tasks = append(tasks, h.mkTask(c.S, first+int64(i), nss[i], wfs[i]))
 			}
 			h.nextID[c.S] = first + int64(c.K)
 		}
@@ -585,6 +648,68 @@ func (h *vrtHarness) exec(c vrtCmd) bool {
 			return false
 		}
 		h.log(map[string]interface{}{"ev": "TgtGone", "t": c.T, "inc": srv.inc})
+		return true
+	case "holdtgt":
+		// break the target stream and hold its sender right after close(sendMsgChan): closed but still registered
+		tg := h.tgts[c.T]
+		h.mu.Lock()
+		if !tg.up {
+			h.mu.Unlock()
+			return false
+		}
+		tg.up = false
+		srv := tg.srv
+		h.holdTgt[c.T] = make(chan struct{})
+		h.emit(map[string]interface{}{"ev": "TgtClose", "t": c.T, "inc": srv.inc})
+		h.mu.Unlock()
+		srv.doBreak()
+		return h.waitFor(func() bool { return h.heldTgt[c.T] }, 3*time.Second)
+	case "releasetgt":
+		tg := h.tgts[c.T]
+		h.mu.Lock()
+		rel := h.holdTgt[c.T]
+		delete(h.holdTgt, c.T)
+		delete(h.heldTgt, c.T)
+		if rel == nil {
+			h.mu.Unlock()
+			return false
+		}
+		h.emit(map[string]interface{}{"ev": "TgtRelease", "t": c.T})
+		h.mu.Unlock()
+		close(rel)
+		select {
+		case <-tg.done:
+		case <-time.After(5 * time.Second):
+			h.log(map[string]interface{}{"ev": "Stuck", "what": "target stream did not end", "t": c.T})
+			return false
+		}
+		h.log(map[string]interface{}{"ev": "TgtGone", "t": c.T, "inc": tg.srv.inc})
+		return true
+	case "idle":
+		// one second without traffic: the proxy's keep-alive timers fire; targets accept what they are sent
+		time.Sleep(2100 * time.Millisecond)
+		for t := 1; t <= h.sched.NT; t++ {
+			tg := h.tgts[t]
+			h.mu.Lock()
+			w := tg.up && tg.srv != nil && tg.srv.waiting && len(h.chanOf(t)) == 0
+			h.mu.Unlock()
+			if w {
+				h.exec(vrtCmd{C: "send", T: t})
+			}
+		}
+		h.log(map[string]interface{}{"ev": "Idle"})
+		return true
+	case "flood":
+		// c.N rounds of (one task, one watermark) from source c.S while target c.T is stalled (accepts nothing);
+		// every other target keeps up. Fills the stalled target's real 100-slot queue with watermarks.
+		for r := 0; r < c.N; r++ {
+			if !h.exec(vrtCmd{C: "tasks", S: c.S, K: 1}) || !h.exec(vrtCmd{C: "wm", S: c.S}) {
+				return false
+			}
+			if !h.drainExcept(c.T) {
+				return false
+			}
+		}
 		return true
 	case "reopentgt":
 		if h.tgts[c.T].up {
@@ -661,6 +786,62 @@ func (h *vrtHarness) exec(c vrtCmd) bool {
 		h.emit(h.quietEvent(ok))
 		h.mu.Unlock()
 		return true
+	}
+	return false
+}
+
+func (h *vrtHarness) chanOf(t int) chan RoutedMessage { // caller may hold mu
+	ch, _ := h.sm.GetRemoteSendChan(history.ClusterShardID{ClusterID: vrtClusterB, ShardID: int32(t)})
+	return ch
+}
+
+// drainExcept: like drain, but target `stalled` accepts nothing and is not waited for.
+func (h *vrtHarness) drainExcept(stalled int) bool {
+	deadline := time.Now().Add(4 * h.cmdWait)
+	for time.Now().Before(deadline) {
+		progressed := false
+		busy := false
+		for t := 1; t <= h.sched.NT; t++ {
+			if t == stalled {
+				continue
+			}
+			tg := h.tgts[t]
+			h.mu.Lock()
+			srv := tg.srv
+			waiting := tg.up && srv != nil && srv.waiting
+			nq := 0
+			if tg.up && srv != nil {
+				nq = len(srv.trkQ)
+			}
+			pendingCh := tg.up && len(h.chanOf(t)) > 0
+			h.mu.Unlock()
+			if waiting && h.exec(vrtCmd{C: "send", T: t}) {
+				progressed = true
+			}
+			for i := 0; i < nq; i++ {
+				if h.exec(vrtCmd{C: "done", T: t, I: 1}) {
+					progressed = true
+				}
+			}
+			if pendingCh || waiting {
+				busy = true
+			}
+		}
+		// the receiver must be back in Recv before the next batch
+		h.mu.Lock()
+		idle := true
+		for _, src := range h.srcs {
+			if src.stream != nil && !src.stream.inRecv {
+				idle = false
+			}
+		}
+		h.mu.Unlock()
+		if !progressed && !busy && idle {
+			return true
+		}
+		if !progressed {
+			time.Sleep(200 * time.Microsecond)
+		}
 	}
 	return false
 }
@@ -789,6 +970,12 @@ func (h *vrtHarness) quietEvent(ok bool) map[string]interface{} {
 // teardown ends every stream and checks that every streamRouting call returns.
 func (h *vrtHarness) teardown() bool {
 	ok := true
+	h.mu.Lock()
+	for t, rel := range h.holdTgt {
+		close(rel)
+		delete(h.holdTgt, t)
+	}
+	h.mu.Unlock()
 	for _, tg := range h.tgts {
 		if tg.srv != nil {
 			tg.srv.doBreak()
@@ -870,6 +1057,8 @@ func TestVerifRoutingSchedules(t *testing.T) {
 	var seed int64 = 1
 	fmt.Sscanf(os.Getenv("VERIF_SEED"), "%d", &seed)
 	h := vrtNewHarness(json.NewEncoder(w), seed)
+	vhook.Set(h.hook)
+	defer vhook.Set(nil)
 	sc := bufio.NewScanner(f)
 	sc.Buffer(make([]byte, 1<<20), 1<<26)
 	total, unreal := 0, 0
